@@ -49,6 +49,9 @@ FAILS = [
     ("view_body", f"CREATE VIEW DB1.S1.V_BAD AS SELECT * FROM {M}", (2003, "42S02"), "unknown-table"),
     ("ctas_source", f"CREATE TABLE DB1.S1.CT_BAD AS SELECT * FROM {M}", (2003, "42S02"), "unknown-table"),
     ("clone_source", f"CREATE TABLE DB1.S1.CL_BAD CLONE {M}", (2003, "42S02"), "unknown-table"),
+    ("replace_clone_source", f"CREATE OR REPLACE TABLE {T} CLONE {M}", None, "unknown-table"),
+    ("replace_ctas_source", f"CREATE OR REPLACE TABLE {T} AS SELECT * FROM {M}", (2003, "42S02"), "unknown-table"),
+    ("replace_view_body", f"CREATE OR REPLACE VIEW DB1.S1.ORDERS_V AS SELECT * FROM {M}", (2003, "42S02"), "unknown-table"),
     ("merge_source", f"MERGE INTO {T} t USING {M} s ON t.ID = s.ID WHEN MATCHED THEN DELETE", (2003, "42S02"), "unknown-table"),
     ("merge_target", f"MERGE INTO {M} t USING {T} s ON t.ID = s.ID WHEN MATCHED THEN DELETE", (2003, "42S02"), "unknown-table"),
     ("comment_on_table", f"COMMENT ON TABLE {M} IS 'never'", (2003, "42S02"), "unknown-table"),
